@@ -116,4 +116,23 @@ theorem WF_of_bits {n : Nat} {t : Array W} (hs : t.size = tableSize n)
   · have := h k hk b hb (by omega)
     simp [this]
 
+/-- index-free reading of well-formedness -/
+theorem WF_iff_bits (n : Nat) (t : Array W) : WF n t ↔
+    t.size = tableSize n ∧ ∀ (k b : Nat), b < 64 → 2 ^ n ≤ b → (t[k]?.getD 0#64).getLsbD b = false := by
+  constructor
+  · intro h
+    refine ⟨h.1, ?_⟩
+    intro k b hb hge
+    by_cases hk : k < t.size
+    · have e : t[k]? = some t[k] := by simp [hk]
+      rw [e]; exact WF_word_bit h k hk b hb hge
+    · have e : t[k]? = none := by simp; omega
+      rw [e]; simp
+  · rintro ⟨hs, h⟩
+    apply WF_of_bits hs
+    intro k hk b hb hge
+    have := h k b hb hge
+    have e : t[k]? = some t[k] := by simp [hk]
+    rw [e] at this; exact this
+
 end VoluteModel
